@@ -41,3 +41,26 @@ Proof. exact aggregate_ignores_null. Qed.
 Example ex_perm : Permutation [PConj (CCond (EInt 1)); PConj (CCond (EInt 0))]
                               [PConj (CCond (EInt 0)); PConj (CCond (EInt 1))].
 Proof. apply perm_swap. Qed.
+
+(* order-driven elimination of internal variables (model Core/Elim.v, tied to rule_translate by props/c01.py):
+   when the loop succeeds on two orderings of the same unifications and constraints, the two final
+   SELECT/WHERE structures accept the same row choices with the same head values (non-null joins).
+   Whether the loop SUCCEEDS may depend on the order - that is the known finding of this property. *)
+From LV Require Import Core.Elim Core.ElimProofs.
+
+Theorem C07_elimination_orders_agree :
+  forall app is_x E s t s' t',
+  same_structure s t ->
+  eliminate is_x E s = Some (inr s') -> eliminate is_x E t = Some (inr t') ->
+  forall rho, solves app rho s' ->
+  (forall sg t1 l r, represents app E t t1 -> In (l, r) (unifs t1) -> peval app sg l <> VNull) ->
+  solves app rho t' /\ output app rho t' = output app rho s'.
+Proof. exact elimination_orders_agree. Qed.
+
+(* and the order dependence of SUCCESS exists in the model exactly as in the code: the two orders of
+   { c == x, x == y } with y extracted, c and x internal user variables ... both succeed here; the witness
+   of failure needs a combine and is replayed on the implementation (known_findings.json, C07). *)
+Example ex_same_structure :
+  same_structure {| sel := [(0, PVar 1)]; unifs := [(PVar 1, PVar 0); (PVar 0, PVar 1000)]; cons := [] |}
+                 {| sel := [(0, PVar 1)]; unifs := [(PVar 0, PVar 1000); (PVar 1, PVar 0)]; cons := [] |}.
+Proof. split; [reflexivity|]. split; [apply perm_swap | apply perm_nil]. Qed.
